@@ -39,7 +39,7 @@ def parents_map(root):
     return pm
 
 
-@rule("R13.1", props=["C13"], floor=10, title="shared words are modified only by single RMWs or well-formed CAS retry loops; no load->store on a shared word through &self")
+@rule("R13.1", props=["C13", "C03"], floor=10, title="shared words are modified only by single RMWs or well-formed CAS retry loops; no load->store on a shared word through &self")
 def r13_1(ctx, rr):
     F = ctx.F()
     for b in F.fns():
